@@ -207,6 +207,8 @@ class Engine:
     def read_place(self, st, fid, local, proj):
         if fid == 'heap':
             v = st.heap.get(local)
+            if v is None:
+                v = getattr(self, 'const_heap', {}).get(local)
         else:
             v = st.fmap[fid].locs.get(local)
         for p in proj:
@@ -482,7 +484,9 @@ class Engine:
                 if isinstance(v, Obj) and v.kind in ('handle',):
                     return v
             v = self.read_place(st, fid, l, p)
-            if isinstance(v, (Str, Seq)) and p and p[-1][0] in ('deref', 'subslice'):
+            if isinstance(v, Str) and p:
+                return v      # a reference to (a projection of) an unsized str/[u8] place is the fat pointer itself
+            if isinstance(v, Seq) and p and p[-1][0] in ('deref', 'subslice'):
                 return v
             # reference to a place; canonicalise through leading derefs of Refs so it survives frame pops
             return self.mkref(st, fid, l, p)
@@ -839,6 +843,7 @@ class Engine:
         fr = st.frames[-1]
         f = fr.fn
         stmts, term = f.blocks[fr.bb]
+        was_term = fr.ip >= len(stmts)
         try:
             if fr.ip < len(stmts):
                 s = stmts[fr.ip]; fr.ip += 1
@@ -848,7 +853,7 @@ class Engine:
         except (ValueError, KeyError, AttributeError, IndexError, AssertionError, TypeError) as e:
             if getattr(e, '_mirsym_ctx', False):
                 raise
-            cur = stmts[fr.ip - 1] if 0 < fr.ip <= len(stmts) else term
+            cur = term if was_term else stmts[fr.ip - 1]
             err = Inconclusive(f'engine cannot execute `{cur[:200]}` in {f.name} bb{fr.bb}: {type(e).__name__}: {e}')
             raise err from e
 
@@ -1136,6 +1141,10 @@ class Engine:
                 best, score = [f], sc
             elif sc == score:
                 best.append(f)
+        if len(best) > 1 and all((b.args, b.ret) == (best[0].args, best[0].ret) and [t for _, t in sorted(b.locals.items())] == [t for _, t in sorted(best[0].locals.items())] for b in best):
+            # identical signatures (e.g. a cfg-duplicated or macro-duplicated helper): bodies must also agree textually
+            if all(b.blocks == best[0].blocks for b in best):
+                best = best[:1]
         if len(best) != 1:
             raise Inconclusive(f'ambiguous overload for {callee}: {len(best)} bodies score {score}')
         self.parse_cache[key] = best[0]
